@@ -52,6 +52,18 @@ theorem findLoop_spec (allDirs : List Text) :
         rcases List.mem_cons.mp hq with rfl | hq
         · rfl
         · exact h3 q hq
+    | valueError m =>
+      rcases ih (errs ++ [m]) hrest with ⟨t, pre, d', post, h1, h2, h3⟩ | ⟨es, h1, h2, h3⟩
+      · refine Or.inl ⟨t, (d, .valueError m) :: pre, d', post, by simpa [findLoop] using h1, by simp [h2], ?_⟩
+        intro q hq
+        rcases List.mem_cons.mp hq with rfl | hq
+        · rfl
+        · exact h3 q hq
+      · refine Or.inr ⟨es, by simpa [findLoop] using h1, by simp [h2]; omega, ?_⟩
+        intro q hq
+        rcases List.mem_cons.mp hq with rfl | hq
+        · rfl
+        · exact h3 q hq
 
 theorem showErrors_ok (es : Errors) (sources : List (String × Text)) (color : Bool)
     (h : ∀ g ∈ es, g ≠ []) : ∃ t, showErrors es sources color = .ok t := by
